@@ -69,6 +69,56 @@ def run(tier, seed):
                 cases.append(drv.Case(cid, ops))
                 meta[cid] = (tname, t, v, ref, plan)
         res = drv.run_parallel(b.exe, cases)
+        # second stage: value-preserving rewritings of the library's own XER documents (white-space, comments, empty-element
+        # tags, white-space inside tags, prolog); the yardstick is the reference DER of the value
+        xcases, xmeta = [], {}
+        for cid, (tname, t, v, ref, plan) in list(meta.items()):
+            r = res.get(cid)
+            if r is None or r.status != "ok" or len(ref) > 3000:
+                continue
+            xcases.append(drv.Case(cid, ["dec s=0 t=%s syn=BER in=%s" % (tname, drv.hx(ref)), "enc s=0 syn=CXER", "enc s=0 syn=BXER"]))
+        xres = drv.run_parallel(b.exe, xcases, confirm=False) if xcases else {}
+        x2cases = []
+        nid = max(meta) + 1 if meta else 1
+        for cid, (tname, t, v, ref, plan) in list(meta.items()):
+            r = xres.get(cid)
+            if r is None or r.status != "ok" or len(r.events) < 3 or r.events[0].get("rc") != "OK":
+                continue
+            plan2, ops2 = [], []
+            for syn, e in (("CXER", r.events[1]), ("BXER", r.events[2])):
+                if e.get("out") in (None, "-") or e.get("rc") in ("-1", None):
+                    continue
+                own = drv.unhex(e["out"])
+                if syn == "BXER" and own.endswith(b"\n"):
+                    own = own[:-1]      # the document proper ends with the root end tag (KF-C01-BXER-trailing-newline is about the extra newline)
+                # only documents the library itself reads back to the value are rewritten (its own round trip is C01's business)
+                for fam, xb in [("own", own)] + variants.xer_variants(rng, own, nvar):
+                    ops2 += ["dec s=0 t=%s syn=%s in=%s" % (tname, syn, drv.hx(xb)), "enc s=0 syn=DER", "free s=0"]
+                    plan2.append((syn, "xer-" + fam, xb))
+            if plan2:
+                x2cases.append(drv.Case(nid, ops2))
+                xmeta[nid] = (tname, t, v, ref, plan2)
+                nid += 1
+        x2res = drv.run_parallel(b.exe, x2cases) if x2cases else {}
+        for c2, (tname, t, v, ref, plan2) in xmeta.items():
+            r = x2res.get(c2)
+            if r is None or r.status == "notrun":
+                continue
+            # drop the rewritings of documents whose unmodified form is not read back correctly
+            ev = r.events
+            good = {}
+            keep = []
+            for i, (syn, fam, xb) in enumerate(plan2):
+                if 3 * i + 1 >= len(ev):
+                    break
+                d, e = ev[3 * i], ev[3 * i + 1]
+                ok = d.get("rc") == "OK" and e.get("out") == drv.hx(ref)
+                if fam == "xer-own":
+                    good[syn] = ok
+            if not any(good.values()) and r.status == "ok":
+                continue
+            meta[c2] = (tname, t, v, ref, [p if (good.get(p[0]) or r.status != "ok") else (p[0], "skip", p[2]) for p in plan2])
+            res[c2] = r
         for cid, (tname, t, v, ref, plan) in meta.items():
             r = res.get(cid)
             if r is None or r.status == "notrun":
@@ -80,6 +130,8 @@ def run(tier, seed):
                 if 3 * i + 1 >= len(ev):
                     break
                 d, e = ev[3 * i], ev[3 * i + 1]
+                if fam in ("skip", "xer-own"):
+                    continue
                 chk.evaluations += 1
                 chk.seen((b.seed, tname, syn, xb))
                 idsyn = {"BER": "DER"}.get(syn, syn)
@@ -94,6 +146,7 @@ def run(tier, seed):
                     bad = "value-differs"
                 if bad:
                     chk.violation({"symptom": bad, "syntax": syn, "family": fam, "kind": rt.kind, "fids": fids,
+                                   "xer_empty_value": bool(fam.startswith("xer-") and any(w in xb for w in (b"<true", b"<false", b"INFINITY", b"<NOT-A-NUMBER"))),
                                    "empty_root": bool(rt.kind in ("SEQUENCE", "SET") and not (rt.comps or []))},
                                   "%s %s: valid %s encoding (%s, %d bytes) -> %s consumed=%s%s; value %s" % (
                                       tname, model.type_text(t, 0)[:100].replace("\n", " "), syn, fam, len(xb), d.get("rc"), d.get("consumed"),
